@@ -153,3 +153,103 @@ def run_standard(res, pid, tier, *, area, build_impl, gen_cases, oracle, corr_na
         res.notes.append("proof stage failed: " + err)
     res.extra["disagreements"] = len(dis)
     res.extra["corpus_cases"] = len(corpus)
+
+
+def run_lab(res, pid, tier, *, area, gen_scenarios, run_impl, to_case, oracle, corr_name,
+            gens=(), n_quick=150, n_thorough=3000, seed_salt=0, kind_fn=None, nontrivial_fn=None,
+            model_blind=None, retries=2):
+    """The P/C/S pipeline for a whole-proxy (end-to-end) property.
+
+    gen_scenarios(rng, n)      -> list of scenarios (JSON-serialisable dicts); corpus/<pid>/*.jsonl run first
+    run_impl(L, scenarios)     -> list of observation lines (one canonical string per scenario) obtained from the
+                                  REAL squid built from /repo's working tree in lab L (vlib.lab.Lab); the driver
+                                  starts squid/origins itself; must be deterministic up to the stated observables
+    to_case(scenario)          -> the case line for the extracted model runner, which must print the predicted
+                                  observation line in the same canonical syntax
+    oracle(scenario, obs_line) -> None or (signature, description): the property itself evaluated on what the
+                                  implementation did (independent of the model)
+    Disagreements and oracle failures are re-run `retries` times; only reproducible ones count.
+    """
+    from . import lab as labmod
+    rng = random.Random(seed() * 1000003 + seed_salt)
+    ok, err = proof_stage(res, pid, gens=gens)
+    runner = coq.build_runner(area)
+    n = n_quick if tier == "quick" else n_thorough
+    scen = []
+    d = os.path.join(VERIF, "corpus", pid)
+    if os.path.isdir(d):
+        for f in sorted(os.listdir(d)):
+            if f.endswith(".jsonl"):
+                for line in open(os.path.join(d, f)):
+                    if line.strip() and not line.startswith("#"):
+                        scen.append(json.loads(line))
+    ncorpus = len(scen)
+    scen += gen_scenarios(rng, n)
+    found = 0
+    with labmod.Lab(pid) as L:
+        try:
+            L.build()
+        except labmod.LabError as ex:
+            res.fail("build", "%s: squid no longer builds from /repo's working tree: %s" % (pid, str(ex)[-1500:]),
+                     {"no_failing_input_found": True, "broken": "lab build", "detail": str(ex)[-3000:]})
+            if not ok:
+                res.notes.append("proof stage failed: " + err)
+            return
+        res.extra["lab_build_s"] = round(getattr(L, "build_s", 0), 1)
+        obs = run_impl(L, scen)
+        cases = [to_case(s) for s in scen]
+        model = corr.run_lines(runner, cases)
+        for s, c, o in zip(scen, cases, obs):
+            res.count_case(c, nontrivial=(nontrivial_fn(s, o) if nontrivial_fn else True),
+                           kind=(kind_fn(s, o) if kind_fn else None))
+        for s in scen[ncorpus:ncorpus + 4]:
+            res.sample(json.dumps(s)[:600])
+        suspects = []
+        for k, (s, o, m) in enumerate(zip(scen, obs, model)):
+            v = oracle(s, o)
+            differs = (o != m) and not (model_blind and model_blind(s))
+            if v or differs:
+                suspects.append(k)
+        # confirm: re-run suspects; only reproducible failures count
+        confirmed = {}
+        cur = list(suspects)[:400]
+        attempt_obs = {k: [obs[k]] for k in cur}
+        for _ in range(retries):
+            if not cur:
+                break
+            again = run_impl(L, [scen[k] for k in cur])
+            nxt = []
+            for k, o2 in zip(cur, again):
+                attempt_obs[k].append(o2)
+                v = oracle(scen[k], o2)
+                differs = (o2 != model[k]) and not (model_blind and model_blind(scen[k]))
+                if v or differs:
+                    nxt.append(k)
+            cur = nxt
+        dis = []
+        for k in cur:
+            o = attempt_obs[k][-1]
+            v = oracle(scen[k], o)
+            if v:
+                sig, why = v
+                if res.fail(sig, "%s on scenario %s: squid did `%s`: %s" % (pid, json.dumps(scen[k])[:500], o[:300], why),
+                            {"scenario": scen[k], "impl": o, "model": model[k], "oracle": why, "signature": sig,
+                             "attempts": attempt_obs[k]}):
+                    found += 1
+            else:
+                dis.append(k)
+        res.extra["suspects_first_pass"] = len(suspects)
+        res.extra["flaky_discarded"] = len(suspects) - len(cur)
+    if dis and not found:
+        k = dis[0]
+        res.fail("corr:" + corr_name.split()[0],
+                 "model and squid disagree on %d scenarios (first: %s squid=`%s` model=`%s`); the property oracle holds on every observation"
+                 % (len(dis), json.dumps(scen[k])[:400], attempt_obs[k][-1][:200], model[k][:200]),
+                 {"no_failing_input_found": True, "broken": "correspondence " + corr_name, "scenario": scen[k],
+                  "impl": attempt_obs[k][-1], "model": model[k], "disagreements": len(dis)})
+    if not ok and not found:
+        no_input_violation(res, "Properties_%s.v" % pid, err)
+    elif not ok:
+        res.notes.append("proof stage failed: " + err)
+    res.extra["disagreements"] = len(dis)
+    res.extra["corpus_cases"] = ncorpus
